@@ -3,9 +3,20 @@ module verif
 go 1.23
 
 require (
+	github.com/djherbis/atime v1.1.0
+	github.com/fsnotify/fsnotify v1.8.0
+	github.com/matryer/try v0.0.0-20161228173917-9ac251b645a2
+	github.com/tdewolff/argp v0.0.0-20250209172303-079abae893fb
 	github.com/tdewolff/minify/v2 v2.0.0
 	github.com/tdewolff/parse/v2 v2.7.23
 	golang.org/x/net v0.34.0
+)
+
+require (
+	github.com/jmoiron/sqlx v1.4.0 // indirect
+	github.com/pelletier/go-toml v1.9.5 // indirect
+	golang.org/x/sys v0.30.0 // indirect
+	gopkg.in/yaml.v3 v3.0.1 // indirect
 )
 
 replace github.com/tdewolff/minify/v2 => /repo
